@@ -27,7 +27,7 @@ func init() {
 		Assumptions: []string{
 			"pattern syntax and single-pattern matching are those of moby/patternmatcher (same library on both sides, fresh matcher per decision in the reference)",
 			"runs as root on a file system with user.* xattrs; source and destination are separate directories; the source is not modified during the copy",
-			"populated destinations never hold an entry whose type conflicts with the source entry of the same path (that is C15's overlay territory)",
+			"populated destinations never hold an entry whose type conflicts with a SELECTED source entry of the same path or with an ancestor of one (that is C15's overlay territory); in half of them up to 3 entries of a conflicting type stand at the paths of source entries that no reference selects, and half run with AlwaysReplaceExistingDestPaths: those obstacles must stay untouched (a copy that fails on such an obstacle - a regular file where a non-empty unselected directory is walked - is counted, not judged)",
 			"metadata of directories that existed before the copy is not judged (the statement speaks of ancestors created on demand)",
 		},
 		Cases: func(tier string) int {
@@ -40,6 +40,110 @@ func init() {
 		MinNontrivial: func(tier string) int { return 1000 },
 		Run:           c16Run,
 	})
+}
+
+// c16Obstacles puts entries of a conflicting type into the prior destination
+// at the paths of source entries that neither reference selects (and that are
+// no ancestors of a selection): the copy has no business there, with or
+// without always-replace. Returns the obstacle paths.
+func c16Obstacles(R *core.Rand, view *tree.Tree, items []refs.Item, inc, exc []string, prior *tree.Tree) []string {
+	naive, err := refs.SelectNaive(items, inc, exc)
+	if err != nil {
+		return nil
+	}
+	incr, err := refs.SelectIncremental(items, inc, exc)
+	if err != nil {
+		return nil
+	}
+	keep := map[string]bool{}
+	for _, p := range refs.WithAncestors(items, naive) {
+		keep[p] = true
+	}
+	for _, p := range refs.WithAncestors(items, incr) {
+		keep[p] = true
+	}
+	var cands []*tree.Entry
+	for i := range view.Entries {
+		e := &view.Entries[i]
+		if keep[e.Path] {
+			continue
+		}
+		cands = append(cands, e)
+	}
+	var out []string
+	related := func(a, b string) bool {
+		return a == b || strings.HasPrefix(a, b+"/") || strings.HasPrefix(b, a+"/")
+	}
+	meta := func(e *tree.Entry) {
+		e.Perm, e.UID, e.GID = 0640, 4242, 4343
+		if e.Type == tree.Dir {
+			e.Perm = 0750
+		}
+		e.Mtime = int64(800_000_000+R.Intn(1000))*1_000_000_000 + 3
+	}
+	for n := 0; n < 3 && len(cands) > 0; n++ {
+		e := cands[R.Intn(len(cands))]
+		clash := false
+		for _, o := range out {
+			if related(o, e.Path) {
+				clash = true
+			}
+		}
+		if clash {
+			continue
+		}
+		// the ancestors must be directories in the prior destination
+		ok := true
+		for a := tree.Parent(e.Path); a != ""; a = tree.Parent(a) {
+			if pe := prior.Get(a); pe != nil && pe.Type != tree.Dir {
+				ok = false
+			}
+		}
+		if !ok {
+			continue
+		}
+		for a := tree.Parent(e.Path); a != ""; a = tree.Parent(a) {
+			if prior.Get(a) == nil {
+				d := tree.Entry{Path: a, Type: tree.Dir}
+				meta(&d)
+				prior.Entries = append(prior.Entries, d)
+			}
+		}
+		// drop what the prior holds at and below the path
+		var kept []tree.Entry
+		for _, pe := range prior.Entries {
+			if !related(pe.Path, e.Path) || len(pe.Path) < len(e.Path) {
+				kept = append(kept, pe)
+			}
+		}
+		prior.Entries = kept
+		var ob tree.Entry
+		if e.Type == tree.Dir {
+			switch R.Intn(3) {
+			case 0:
+				ob = tree.Entry{Path: e.Path, Type: tree.File, Data: []byte("OBSTACLE")}
+			case 1:
+				ob = tree.Entry{Path: e.Path, Type: tree.Symlink, Perm: 0777, Target: "zz-nowhere"}
+			default:
+				ob = tree.Entry{Path: e.Path, Type: tree.Symlink, Perm: 0777, Target: "."}
+			}
+		} else {
+			ob = tree.Entry{Path: e.Path, Type: tree.Dir}
+		}
+		meta(&ob)
+		if ob.Type == tree.Symlink {
+			ob.Perm = 0777
+		}
+		prior.Entries = append(prior.Entries, ob)
+		if ob.Type == tree.Dir && R.P(1, 2) {
+			ch := tree.Entry{Path: ob.Path + "/zz.inner", Type: tree.File, Data: []byte("inner")}
+			meta(&ch)
+			prior.Entries = append(prior.Entries, ch)
+		}
+		out = append(out, e.Path)
+	}
+	prior.Sort()
+	return out
 }
 
 // c16Prior derives a populated destination from the source view.
@@ -156,8 +260,12 @@ func c16Run(c *core.Ctx) *core.Result {
 	}
 	populated := R.P(2, 5)
 	prior := &tree.Tree{}
+	var obstacles []string
 	if populated {
 		prior = c16Prior(R, view)
+		if R.P(1, 2) {
+			obstacles = c16Obstacles(R, view, items, inc, exc, prior)
+		}
 		if err := tree.Materialise(dstDir, prior); err != nil {
 			r.Inconclusive = "materialise dest: " + err.Error()
 			return r
@@ -170,6 +278,13 @@ func c16Run(c *core.Ctx) *core.Result {
 	}
 	srcArg := core.Pick(R, []string{"/", "."})
 	ci := fs.CopyInfo{}
+	if populated && R.P(1, 2) {
+		// no selected source entry meets a prior entry of another type, so
+		// always-replace has nothing to replace; what is not selected must
+		// stay whatever this flag says
+		ci.AlwaysReplaceExistingDestPaths = true
+		r.Count("populated_with_always_replace", 1)
+	}
 	if sub != "" {
 		srcArg = sub
 		ci.CopyDirContents = true
@@ -192,7 +307,7 @@ func c16Run(c *core.Ctx) *core.Result {
 	if populated {
 		kind = "populated"
 	}
-	sample := map[string]any{"tree": view.Lines(), "sub": sub, "include": inc, "exclude": exc, "dest": kind, "prior": prior.Lines()}
+	sample := map[string]any{"tree": view.Lines(), "sub": sub, "include": inc, "exclude": exc, "dest": kind, "prior": prior.Lines(), "always_replace": ci.AlwaysReplaceExistingDestPaths, "obstacles": obstacles}
 	r.Sample = sample
 	r.AddSet("configs", fmt.Sprintf("dest=%s sub=%v inc=%v exc=%v", kind, sub != "", len(inc) > 0, len(exc) > 0))
 
@@ -206,6 +321,17 @@ func c16Run(c *core.Ctx) *core.Result {
 			r.ViolateD("filter-badpattern", sample, "patterns inc=%q exc=%q are invalid (%v) but the copy accepted them", inc, exc, nerr)
 		}
 		return r
+	}
+	if cerr != nil && len(obstacles) > 0 {
+		// a regular file where a non-empty unselected source directory is
+		// walked makes the copy fail (ENOTDIR below it): not judged
+		r.Count("copy_failed_on_an_obstacle_not_judged", 1)
+		r.FP = fmt.Sprintf("obstacle-failed|%s|%q|%q", view.Fingerprint(), inc, exc)
+		return r
+	}
+	if len(obstacles) > 0 {
+		r.Count("copies_over_type_conflicts_at_unselected_paths", 1)
+		r.Count("obstacles_placed", int64(len(obstacles)))
 	}
 	if cerr != nil {
 		r.ViolateD("copy-failed", sample, "filtered copy failed on a legal tree and legal patterns (inc=%q exc=%q dest=%s): %v", inc, exc, kind, cerr)
@@ -354,7 +480,7 @@ func c16Run(c *core.Ctx) *core.Result {
 // c16Clauses judges the per-entry clauses of the statement under one selection.
 func c16Clauses(sel map[string]bool, view, before, after *tree.Tree, items []refs.Item, priorDir map[string]bool, copied []string, populated bool, sample any) *core.Result {
 	r := &core.Result{}
-	ai, vi := after.Index(), view.Index()
+	ai, vi, bi0 := after.Index(), view.Index(), before.Index()
 	keep := map[string]bool{}
 	for _, p := range refs.WithAncestors(items, sel) {
 		keep[p] = true
@@ -370,7 +496,7 @@ func c16Clauses(sel map[string]bool, view, before, after *tree.Tree, items []ref
 		if !keep[e.Path] {
 			if !priorDir[e.Path] {
 				r.Count("unselected_dirs_checked_absent", 1)
-				if exists {
+				if _, was := bi0[e.Path]; exists && !was {
 					r.ViolateD("copy-extra-dir", sample, "directory %q neither matches nor has a selected descendant but was created", e.Path)
 				}
 			}
